@@ -46,12 +46,19 @@ func c06Gen(seed, n, rsize int) c06Graph {
 	var g c06Graph
 	var free []string // unused output ports of earlier instances
 	var used []string // output ports that already feed a link (may feed more: fan-out of one port)
+	usedMul := false
 	for i := 0; i < n; i++ {
 		nlib := len(c06Lib)
 		if rsize != 8 {
 			nlib--
 		}
 		f := c06Lib[r.Intn(nlib)]
+		if f.name == "mul2" {
+			if usedMul {
+				f = c06Lib[r.Intn(len(c06Lib)-1)] // one multiplication per graph: products of products do not finish in the solver
+			}
+			usedMul = true
+		}
 		in := c06Inst{name: fmt.Sprintf("f%d", i), frag: f}
 		for p := 0; p < f.nin; p++ {
 			switch k := r.Intn(7); {
@@ -376,6 +383,7 @@ func C06(tier string) int {
 		} else {
 			g = c06Gen(Seed()*10007+gi, n, rsize)
 		}
+		collapsedAccepted := false
 		for pi, blocks := range g.partitions() {
 			nparts++
 			text := g.source(rsize, blocks)
@@ -392,8 +400,17 @@ func C06(tier string) int {
 				if j := strings.IndexByte(msg, '\n'); j >= 0 {
 					msg = msg[:j]
 				}
+				if pi > 0 && collapsedAccepted {
+					// the same graph on one processor was accepted: refusing another placement of it is a difference
+					// between partitions, not a source outside the language
+					cfgs = append(cfgs, Config{Name: name + " REJECTED: " + msg, Func: "zzC06Rejected", Args: []Arg{S(msg)}})
+					continue
+				}
 				rejections = append(rejections, name+": "+msg)
 				continue
+			}
+			if pi == 0 {
+				collapsedAccepted = true
 			}
 			var cps []string
 			var cpkv []map[string]string
@@ -439,7 +456,7 @@ func C06(tier string) int {
 		Configs:  FilterConfigs(cfgs),
 		Assumptions: []string{
 			"metamorphic translation validation: for each fragment graph of a seeded family and each partition of its instances into processors (all collapsed, all separate, every convex two-block partition; collapse lists in topological order) the real basm front-end (fragment analyzer/composer, link resolution, register allocation, Assembler2BondMachine) is RUN NATIVELY - it is not encoded - and the solver decides, per emitted machine, that its simulation (bondmachine.VM.Step with all processors, handshaked i2rw/r2owa links, executed symbolically) delivers on every external output exactly the value of the graph's dataflow expression FOR ALL input values, and delivers every output within the horizon. All partitions are compared with the same expression, hence with each other",
-			"graph family: five fixed shapes (diamond with a tapped source, chain through fragments whose result register differs from their input register, fork and join, one port feeding two instances, two internal links next to a fragment with a gap in its register numbering) and seeded random graphs of 2-5 instances of the fragments addone, subone, sum2, dbl (scratch register), fan2 (two outputs), swapsum (outputs in swapped register order), sumb (result in the second register), dbl3 (scratch register r3, leaving r2 unused), mul2 (8-bit graphs only); every input port is fed by a fresh external input or by an output port of an earlier instance - unused, or already feeding another link (fan-out of one port, also across processors) - unused output ports become external outputs and an already consumed port may be one too; register sizes 8 and 16",
+			"graph family: five fixed shapes (diamond with a tapped source, chain through fragments whose result register differs from their input register, fork and join, one port feeding two instances, two internal links next to a fragment with a gap in its register numbering) and seeded random graphs of 2-5 instances of the fragments addone, subone, sum2, dbl (scratch register), fan2 (two outputs), swapsum (outputs in swapped register order), sumb (result in the second register), dbl3 (scratch register r3, leaving r2 unused), mul2 (8-bit graphs only, at most one per graph); every input port is fed by a fresh external input or by an output port of an earlier instance - unused, or already feeding another link (fan-out of one port, also across processors) - unused output ports become external outputs and an already consumed port may be one too; register sizes 8 and 16",
 			"environment: external inputs constant and always valid, external outputs acknowledged one tick after they are offered; horizon 30+14*instances ticks from reset. Input streams of several values, stalls, cyclic quotient graphs, fragments with jumps or immediates are outside; sources the front-end rejects are counted, not failed",
 		},
 		Bounds: map[string]interface{}{"graphs": ngraphs, "partitions": nparts, "rejected_by_the_front_end": len(rejections), "rejections": rejections, "instances_max": 5},
